@@ -461,15 +461,15 @@ func (sw *sweeper) binary(op token.Token, tx typ) {
 	C := sw.constSet(k)
 	key := fmt.Sprintf("%s|%s", op, tx.src())
 	r := newRng(rec.Seed(), key)
-	nrand := tierScale(16, 120)
+	nrand := tierScale(16, 80)
 
 	// var-var: every storage class. quick: the long pair list for a rotating quarter of
 	// the storage classes (a third for unnamed types), the short list (specials x specials
 	// + random) for the others; thorough: the long list everywhere.
-	longEvery := tierScale(4, 1)
+	longEvery := tierScale(4, 2)
 	rot := int(r.next() % 64)
 	// the same operand pairs go to every storage class
-	longPairs := samplePairs(B, B, r, tierScale(1, 4), rec.Thorough(), 6000)
+	longPairs := samplePairs(B, B, r, tierScale(1, 4), rec.Thorough(), 3000)
 	shortPairs := samplePairs(B[:min(12, len(B))], B[:min(12, len(B))], r, 0, false, 0)
 	for i := 0; i < nrand; i++ {
 		p := pair{k.Random(r), k.Random(r)}
@@ -502,7 +502,7 @@ func (sw *sweeper) binary(op token.Token, tx typ) {
 				form = "untyped"
 			}
 			salt := int(r.next() % 1000)
-			for _, st := range pickStorages(app1, tierScale(2, 5), ci*3+salt) {
+			for _, st := range pickStorages(app1, tierScale(2, 4), ci*3+salt) {
 				c := c0
 				c.shape, c.form, c.st = shape, form, st
 				vals := sampleVals(B, r, tierScale(8, 1))
@@ -524,7 +524,7 @@ func (sw *sweeper) binary(op token.Token, tx typ) {
 		}
 	}
 	// const-const: evaluated directly, value and type from go/types
-	ncc := tierScale(60, 1200)
+	ncc := tierScale(60, 800)
 	forms := []string{"typed", "untypedR", "untypedL"}
 	all := len(C)*len(C) <= ncc
 	n := ncc
